@@ -23,26 +23,26 @@ type removeSite struct {
 }
 
 type pairModel struct {
-	loopPred     eng.Pred // the effect currently searched for (see loopCovers)
-	fieldBusy    map[*types.Var]bool
-	c            *Ctx
-	memMsgs      *types.Var // mem.mbox.messages
-	fileMsgs     *types.Var // file.mbox.messages
-	fRemove      *types.Var // mem.Store.remove
-	fIncoming    *types.Var
-	fDeleted     *types.Var // extension.Events.AfterMessageDeleted
-	fStored      *types.Var
-	emitObj      *types.Func // AsyncEventBroker.Emit (generic origin)
-	makeMeta     *ssa.Function
-	enforcerRm   *ssa.Function
-	enforcerDlv  *ssa.Function
+	loopPred    eng.Pred // the effect currently searched for (see loopCovers)
+	fieldBusy   map[*types.Var]bool
+	c           *Ctx
+	memMsgs     *types.Var // mem.mbox.messages
+	fileMsgs    *types.Var // file.mbox.messages
+	fRemove     *types.Var // mem.Store.remove
+	fIncoming   *types.Var
+	fDeleted    *types.Var // extension.Events.AfterMessageDeleted
+	fStored     *types.Var
+	emitObj     *types.Func // AsyncEventBroker.Emit (generic origin)
+	makeMeta    *ssa.Function
+	enforcerRm  *ssa.Function
+	enforcerDlv *ssa.Function
 	// the rendezvous as one shared helper that is handed the channel (enforcerSend(s.remove, m),
 	// s.remove.submit(m)): a call of it is a removal notice or a delivery notice according to
 	// the channel field passed at chanIdx
 	enforcerVia     *ssa.Function
 	enforcerChanIdx int
-	enforcerLoop *ssa.Function
-	phiBusy      map[*ssa.Phi]bool
+	enforcerLoop    *ssa.Function
+	phiBusy         map[*ssa.Phi]bool
 	// assumed: parameters of a helper under analysis that stand for removed messages (or a
 	// slice of them) because every call passes such a value
 	assumed    map[ssa.Value]bool
@@ -1218,7 +1218,6 @@ func (m *pairModel) holdsEnforcer(f *types.Var) bool {
 	}
 	return false
 }
-
 
 // isEnforcerDeliver: in reports a delivered message to the size enforcer.
 func (m *pairModel) isEnforcerDeliver(in ssa.Instruction) bool {
